@@ -222,12 +222,17 @@ def match_finding(findings, prop, sig):
     equal and every key of its 'match' dict is present in sig with an equal value (or a
     member of the listed values)."""
     for f in findings["findings"]:
-        if f["property"] != prop:
+        props = f.get("properties") or [f.get("property")]
+        if prop not in props:
             continue
         ok = True
         for k, v in f["match"].items():
             sv = sig.get(k)
-            if isinstance(v, list):
+            if k.endswith("_prefix"):                      # e.g. why_prefix: the value must start with it
+                sv = sig.get(k[:-7]) or ""
+                if not any(sv.startswith(x) for x in (v if isinstance(v, list) else [v])):
+                    ok = False
+            elif isinstance(v, list):
                 if sv not in v:
                     ok = False
             elif sv != v:
